@@ -128,7 +128,10 @@ class Leaderboard:
 
         self.kind = first["kind"]
         self.ctx = ctx
-        self.model = classes()[self.kind]()
+        from vf import failing, gen
+
+        # default parameters; the gamma callback is the default one behind a pass-through wrapper the harness can arm to raise (failed_play)
+        self.model, self.trip = failing.tripwire_model(gen.default_config(self.kind))
         self.pool = [self.model.rating(m, s) for m, s in first["ratings"]]
         self.nontrivial = False
         self.labels = ["kind:" + self.kind]
@@ -182,6 +185,35 @@ class Leaderboard:
                 raise Violation("history:rate-raised", f"{self.kind}: rate raised {e!r}") from None
             self.pool[i], self.pool[j] = res[0][0], res[1][0]
             self.changed_after_compare = bool(self.compared)
+        elif op == "failed_play":
+            # rate() on pool objects that does NOT complete: the gamma callback raises at its k-th invocation, or a third (throw-away) team
+            # carries an absurd rating.  Whatever state the objects are left in, comparisons must reflect their CURRENT mu and sigma.
+            i, j = step["i"] % n, step["j"] % n
+            if i == j:
+                return
+            lobby = [[self.pool[i]], [self.pool[j]]]
+            ranks = list(step["ranks"])
+            if step["how"] == "absurd-opponent":
+                lobby.append([self.model.rating(1e7, 1e-3), self.model.rating(-1e7, 1e200)])
+                ranks.append(2)
+            else:
+                self.trip.update(armed=True, after=int(step["after"]), count=0)
+            try:
+                self.model.rate(lobby, ranks=ranks)
+            except Exception:  # noqa: BLE001 - expected; nothing is asserted about the failing call itself
+                pass
+            finally:
+                self.trip["armed"] = False
+            for k in (i, j):
+                r = self.pool[k]
+                ok = all(isinstance(v, (int, float)) and v == v and abs(v) < 1e6 for v in (r.mu, r.sigma)) and r.sigma > 0
+                if not ok:
+                    # a failing call with absurd numbers may leave the object outside the domain (non-finite / huge): replaced, not judged
+                    self.pool[k] = self.model.rating(25.0, 8.0)
+                    self.compared.discard(k)
+            self.changed_after_compare = bool(self.compared)
+            if "failed-play" not in self.labels:
+                self.labels.append("failed-play")
         elif op == "sort":
             try:
                 got = sorted(self.pool)
@@ -208,6 +240,9 @@ Leaderboard.RULES = {
     "play": lambda h: st.fixed_dictionaries({"op": st.just("play"), "i": st.integers(0, 5), "j": st.integers(0, 5),
                                              "ranks": st.sampled_from([[0, 1], [1, 0], [0, 0]])}),
     "sort": lambda h: st.just({"op": "sort"}),
+    "failed_play": lambda h: st.fixed_dictionaries({"op": st.just("failed_play"), "i": st.integers(0, 5), "j": st.integers(0, 5),
+                                                    "ranks": st.sampled_from([[0, 1], [1, 0], [0, 0]]), "how": st.sampled_from(["gamma", "gamma", "absurd-opponent"]),
+                                                    "after": st.integers(0, 3)}),
 }
 
 
